@@ -149,14 +149,15 @@ block program (`Block`: every `startElement` push has its `endElement` pop, fram
 `pushCurrentStackFrameIndex` / `popCurrentStackFrameIndex` come in pairs and are given indices within the
 stack).  Wherever an exception leaves such a program — after *any prefix* of its stack operations — the stack
 satisfies `0 ≤ m_currentStackFrameIndex ≤ m_stack.size()`, i.e. every member state with that stack satisfies
-the hypothesis `MidOk` of `reset_restores_partial` / `history_independent_partial`.  (That the C++ Elem* classes
-produce only such programs is the part taken from the C01 walker model, not re-proved here.) -/
-theorem interpreter_abort_states_midok (b : Block) (pre post : List VOp)
-    (h : (b.ops ⟨0, 0⟩).1 = pre ++ post) (hw : b.WF ⟨0, 0⟩) :
-    ∃ w, VarStack.runOps ⟨0, 0⟩ pre = some w ∧ w.Inv ∧
-      ∀ mid : State, (mid vsStack).items.length = w.size → mid vsIndex = .num (w.idx : Int) → MidOk mid := by
-  obtain ⟨w, hr, hi⟩ := Block.abort_anywhere b pre post h hw
-  refine ⟨w, hr, hi, ?_⟩
+the hypothesis `MidOk` of `reset_restores_partial` / `history_independent_partial`.  The only thing assumed about the
+interpreter is the hypothesis object `WalkerPairing` (the C01 walker statement: every `startElement` push has its
+`endElement` pop, properly nested; `XalanModel.Props.C01.walker_eq_recursion`, `variables_balanced`). -/
+theorem interpreter_abort_states_midok (w : WalkerPairing) (pre post : List VOp)
+    (h : (w.block.ops ⟨0, 0⟩).1 = pre ++ post) :
+    ∃ v, VarStack.runOps ⟨0, 0⟩ pre = some v ∧ v.Inv ∧
+      ∀ mid : State, (mid vsStack).items.length = v.size → mid vsIndex = .num (v.idx : Int) → MidOk mid := by
+  obtain ⟨v, hr, hi⟩ := Block.abort_anywhere w.block pre post h w.wf
+  refine ⟨v, hr, hi, ?_⟩
   intro mid h1 h2
   unfold MidOk VarStack.Inv at *
   rw [h2, h1]
@@ -168,6 +169,24 @@ example : (Block.frame (.seq .var (.withIdx (some 1) (.frame (.seq .var .var))))
       [.push, .push, .setIdx (some 1), .push, .push, .push, .pop, .pop, .pop, .setIdx (some 2), .pop, .pop] := by
   refine ⟨?_, by decide⟩
   simp [Block.WF, Block.ops, VarStack.step]
+
+/-- **reset_after_any_abort.** End to end for the transient members: under the C01 walker statement (`WalkerPairing`),
+wherever an exception leaves a transformation — after any prefix `pre` of its variables-stack operations, every other
+volatile member of `mid` arbitrary — `~EnsureReset` restores every transient member.  (`interpreter_abort_states_midok`
+discharging the `MidOk` hypothesis of `reset_restores_partial`.) -/
+theorem reset_after_any_abort (w : WalkerPairing) (pre post : List VOp)
+    (h : (w.block.ops ⟨0, 0⟩).1 = pre ++ post) :
+    ∃ v, VarStack.runOps ⟨0, 0⟩ pre = some v ∧
+      ∀ mid : State, (mid vsStack).items.length = v.size → mid vsIndex = .num (v.idx : Int) →
+        ∀ m ∈ transientIds, run ensureReset mid m = freshState m := by
+  obtain ⟨v, hr, _, hmid⟩ := interpreter_abort_states_midok w pre post h
+  exact ⟨v, hr, fun mid h1 h2 => reset_restores_partial mid (hmid mid h1 h2)⟩
+
+/-- **guarded_member_restored.** With the hypothesis object `GuardedCode m` (what the translator's site enumeration
+establishes for a `guarded` member), the interpreter leaves `m` empty on every exit, normal or exceptional. -/
+theorem guarded_member_restored (m : Nat) (c : GuardedCode m) (s : State) (hs : s m = .seq []) :
+    (c.prog.exec s).1 m = .seq [] :=
+  scope_guard_restores c.prog m c.guarded s hs
 
 /-- **history_independent_partial.** For every finite history of API operations on one transformer — compile,
 parse, set / clear parameters, install / uninstall functions, destroy, and transformations that stop in
